@@ -252,14 +252,17 @@ def gen_history(ctx, rng, tier, faults, force=None):
         elif kind == 'interrupt':
             c = _usable_call(g, ctx, mix if rng.random() < 0.5 else 'geo', rng.choice(bases) if rng.random() < 0.8 else None)
             op.update(c)
-            o = ctx.oracle(c)
-            steps = max(1, o['steps'])
-            k = rng.randrange(steps)
-            if rng.random() < 0.5:
-                tr = ctx.oracle(c, want_trace=True)['trace'] or []
+            o = ctx.oracle(c, gran='ipoint')
+            tr = o.get('itrace') or []
+            k = rng.randrange(max(1, len(tr)))
+            mode = wchoice(rng, {'uniform': 40, 'line': 30, 'hot': 30})
+            if mode != 'uniform' and tr:
+                # uniform over the distinct source lines that own an interrupt point (all, or only
+                # those that touch process-global state), then a random occurrence
                 locs = {}
                 for j, l in enumerate(tr):
-                    locs.setdefault(l, []).append(j)
+                    if mode == 'line' or l in ctx.hot:
+                        locs.setdefault(l, []).append(j)
                 if locs:
                     k = rng.choice(locs[rng.choice(sorted(locs))])
             op['k'] = k
@@ -353,7 +356,7 @@ def sample_of(spec, out):
         if 'f' in rec:
             s = '%s %s' % (rec['op'], call_repr({'f': rec['f'], 'a': rec['pre']}, 50))
             if rec['op'] == 'interrupt':
-                s += ' [%s at step %d%s]' % (op['exc'], op['k'], ', landed at ' + rec['loc'] if rec['landed'] else ', not reached')
+                s += ' [%s at interrupt point %d%s]' % (op['exc'], op['k'], ', landed at ' + rec['loc'] if rec['landed'] else ', not reached')
             s += ' -> ' + (canon.show(rec['outcome'][1], 60) if rec['outcome'][0] == 'ok' else 'raises ' + rec['outcome'][1])
         else:
             s = '%s ref=%s how=%s applied=%s' % (rec['op'], rec.get('ref'), op.get('how'), rec.get('applied'))
